@@ -50,7 +50,7 @@ def gen_graph(rng, version):
     star = set()
     for _ in range(rng.randint(0, nseg + 3)):
         a, b = rng.choice(names), rng.choice(names)
-        if a == b:
+        if a == b and rng.random() < 0.9:
             continue
         oa, ob = rng.choice('+-'), rng.choice('+-')
         inv = {'+': '-', '-': '+'}
@@ -337,17 +337,34 @@ def run(ctx, deep, model_ok):
     n = 400 if deep else 60
     terms, metas = [], []
     dist = {}
+    probes = [
+        ('F19', {'kind': 'multiply', 'version': 'gfa1', 'lines': ['S\tA\t*\tRC:i:10', 'S\tB\t*', 'L\tA\t+\tA\t+\t3M'],
+                 'segment': 'A', 'factor': 2, 'policy': None, 'names': None}),
+        ('F19', {'kind': 'multiply', 'version': 'gfa1', 'lines': ['S\tA\t*', 'S\tB\t*', 'L\tA\t+\tA\t-\t3M', 'L\tA\t+\tB\t+\t4M'],
+                 'segment': 'A', 'factor': 2, 'policy': 'R', 'names': None}),
+        ('F19', {'kind': 'multiply', 'version': 'gfa1', 'lines': ['S\tA\t*', 'C\tA\t+\tA\t-\t0\t4M'],
+                 'segment': 'A', 'factor': 2, 'policy': None, 'names': None}),
+        ('F20', {'kind': 'multiply', 'version': 'gfa2', 'lines': ['S\tA\t10\t*', 'S\tB\t10\t*', 'E\te1\tA+\tB+\t8\t10$\t0\t2\t*'],
+                 'segment': 'A', 'factor': 2, 'policy': None, 'names': None}),
+    ]
+    text = {'F19': 'a segment with a self-link is not multiplied faithfully (loop cloned twice, hairpin disconnected twice, '
+                   'self-containment unhashable)',
+            'F20': 'GFA2 edges with an identifier are cloned under the same identifier (NotUniqueError)'}
+    for fid, case in probes:
+        r = impl.outcome(lambda: judge(case))
+        ctx.count(case, True)
+        if r[0] != 'ok' or r[1][0]:
+            ctx.known(fid, text[fid] + ': ' + (r[1][0][0][0] if r[0] == 'ok' else str(r[1])))
     for i in range(n):
         case = gen_case(rng, i)
-        if has_selflink(case):
-            ctx.known('F19', 'multiplying a segment that has a self-link (duplicate clone of a loop, double disconnect of a hairpin, '
-                             'unhashable containment) [pattern met in a generated case]')
-            continue
         r = impl.outcome(lambda: judge(case))
         if r[0] != 'ok':
             ctx.violation('failing-input', 'running the case raised %s' % (r[1],), case, python=py_of(case))
             continue
         fails, info = r[1]
+        if fails and has_selflink(case):
+            ctx.known('F19', text['F19'] + ' [generated case]')
+            continue
         nontriv = case['factor'] >= 2 and any(edge_mentions(l.split('\t'), case['version'], case['segment']) for l in case['lines'])
         ctx.count(case, nontriv)
         key = '%s/%s' % ('k>=2' if case['factor'] >= 2 else 'k=%d' % case['factor'], case['policy'])
